@@ -512,13 +512,55 @@ def pred_src(p, t):
     return "fn(x: %s) -> bool { return %s }" % (tstr(t), body)
 
 
+OBSERVING = {"remove", "iread", "indexof", "len", "eq", "print", "concat", "mget", "replace", "mremove", "haskey", "mlen", "keys", "values", "pairs"}
+
+
+class Probes(list):
+    """the `universes` list of render_program, carrying additionally .probes = {index of an observation: (value the
+    specification predicts, value type)} for the results of map `replace` / `remove` that the program uses again"""
+    def __init__(self, *a):
+        list.__init__(self, *a)
+        self.probes = {}
+
+
+def probe_src(lines, n, call_src, r, vt):
+    """the value returned by m.replace(..) / m.remove(..) is kept and used like any other optional: stored in a list
+    that is compared with a list holding the predicted value r, compared itself, unwrapped and used"""
+    lines.append("t%s = %s" % (n, call_src))
+    lines.append("print t%s" % n)
+    lines.append("p%s: [%s?...] = [t%s]" % (n, tstr(vt), n))
+    lines.append("q%s: [%s?...] = [%s]" % (n, tstr(vt), lit(r)))
+    lines.append("print p%s == q%s" % (n, n))
+    lines.append("print p%s" % n)
+    lines.append("print t%s == %s" % (n, lit(r)))
+    if r is not None:
+        lines.append("print (get t%s) + %s" % (n, "1" if vt == INT else '"!"'))
+
+
+class Truncated(Exception):
+    pass
+
+
+def probe_expected(value, r, vt):
+    """stdout lines of probe_src when the call returns `value` (the text was written for the predicted value r)"""
+    same = "true" if value == r else "false"
+    out = [show(value), same, show([value]), same]
+    if r is not None:
+        if value is None:
+            raise Truncated(out)            # `get nil` stops the program
+        out.append(str(value + 1) if vt == INT else value[1] + "!")
+    return out
+
+
 def render_program(hist, oracle_obs, flavour=0):
     """-> (program text, universes): universes[i] = values counted for the i-th executed bag observation.
-    flavour bit 0: non-negative indices through a variable instead of a literal"""
+    flavour bit 0: non-negative indices through a variable instead of a literal
+    flavour bit 1: the result of map `replace` / `remove` (int or str values) is kept in a variable and used again"""
     env = {}
     lines = []
+    n_obs = 0
     helpers = {}
-    universes = []
+    universes = Probes()
     tmp = [0]
     bag_i = 0
     bag_obs = [o[1] for o in oracle_obs if o[0] == "g"]
@@ -611,10 +653,16 @@ def render_program(hist, oracle_obs, flavour=0):
         elif k == "mopassign":
             sym = {"add": "+=", "sub": "-=", "mul": "*="}[op[3]]
             lines.append("v%d[%s] %s %s" % (op[1], lit(op[2]), sym, lit(op[4])))
-        elif k == "replace":
-            lines.append("print v%d.replace(%s, %s)" % (op[1], lit(op[2]), operand_src(op[3], idx, call)))
-        elif k == "mremove":
-            lines.append("print v%d.remove(%s)" % (op[1], lit(op[2])))
+        elif k in ("replace", "mremove"):
+            src = "v%d.replace(%s, %s)" % (op[1], lit(op[2]), operand_src(op[3], idx, call)) if k == "replace" else \
+                "v%d.remove(%s)" % (op[1], lit(op[2]))
+            vt = env[op[1]][2]
+            if (flavour & 2) and vt in (INT, STR) and n_obs < len(oracle_obs) and oracle_obs[n_obs][0] == "v":
+                r = oracle_obs[n_obs][1]
+                probe_src(lines, fresh()[1:], src, r, vt)
+                universes.probes[n_obs] = (r, vt)
+            else:
+                lines.append("print " + src)
         elif k == "haskey":
             lines.append("print v%d.contains_key(%s)" % (op[1], lit(op[2])))
         elif k == "mlen":
@@ -650,6 +698,8 @@ def render_program(hist, oracle_obs, flavour=0):
             assign(op[1], env[op[2]], "v%d.clone()" % op[2])
         else:
             raise Invalid()
+        if k in OBSERVING:
+            n_obs += 1
     text = "".join(helpers[h] for h in sorted(helpers, key=str)) + "\n".join(lines) + "\nprint \"<end>\"\n"
     return text, universes
 
@@ -658,8 +708,14 @@ def expected_lines(obs, failed, universes):
     """stdout lines of the rendered program for a run with these observations"""
     out = []
     g = 0
-    for o in obs:
-        if o[0] == "v":
+    probes = getattr(universes, "probes", {})
+    for i, o in enumerate(obs):
+        if o[0] == "v" and i in probes:
+            try:
+                out += probe_expected(o[1], *probes[i])
+            except Truncated as t:
+                return out + t.args[0]
+        elif o[0] == "v":
             out.append(show(o[1]))
         elif o[0] == "b":
             out.append("true" if o[1] else "false")
@@ -1126,6 +1182,20 @@ def fixed_histories():
     ]
 
 
+def reuse_histories():
+    """map replace / remove whose result is used again (rendered with flavour bit 1): present key, absent key,
+    through an alias and on a clone, int and str values"""
+    s = lambda x: ("s", x)
+    out = []
+    for t, k1, k2, a, b in ((mp(STR, INT), s("a"), s("zz"), 16, 17), (mp(INT, STR), 3, 4, s("x"), s("")), (mp(STR, STR), s(""), s("b"), s("nil"), s("é")),
+                            (mp(INT, INT), 0, -1, 0, -7)):
+        out.append([("maplit", 0, t, [(k1, ("L", a))]), ("replace", 0, k1, ("L", b)), ("mget", 0, k1), ("replace", 0, k2, ("L", a)), ("mlen", 0),
+                    ("mremove", 0, k1), ("mremove", 0, k1), ("mlen", 0), ("pairs", 0)])
+        out.append([("maplit", 0, t, [(k1, ("L", a)), (k2, ("L", b))]), ("alias", 1, 0), ("mclone", 2, 0), ("mremove", 1, k2), ("replace", 2, k2, ("L", a)),
+                    ("mremove", 0, k2), ("mget", 2, k2), ("replace", 1, k1, ("L", b)), ("mget", 0, k1), ("mlen", 0), ("mlen", 2)])
+    return out
+
+
 def random_history(rng, allow_elem_in_literal=True):
     g = Gen(rng, allow_elem_in_literal)
     fam = rng.choice(["list", "list", "list", "nested", "map", "map", "mixed"])
@@ -1231,7 +1301,7 @@ def evaluate(binary, base, exe, hists, flavours):
     impl = programs.pmap(lambda j: run_impl(binary, base, j[1]), jobs)
     out = []
     for (h, text, uni, o_obs, o_failed), (rc, so, se), m in zip(jobs, impl, model):
-        r = {"hist": h, "text": text, "rc": rc, "stdout": so, "stderr": se[-600:], "model": m}
+        r = {"hist": h, "text": text, "rc": rc, "stdout": so, "stderr": se[-600:], "model": m, "probes": getattr(uni, "probes", {})}
         r["compiled"] = compiled(rc, so, se)
         got = out_lines(so)
         r["got"] = got
@@ -1323,7 +1393,12 @@ def run(ctx):
                 hists.append(h)
         except Invalid:
             continue
-    flavours = [0] * n_sys + [rng.choice([0, 0, 1]) for _ in range(len(hists) - n_sys)]
+    flavours = [0] * n_sys + [rng.choice([0, 0, 1, 2, 2, 3]) for _ in range(len(hists) - n_sys)]
+    # the value returned by map replace / remove used again (flavour bit 1), present and absent keys
+    reuse = reuse_histories()
+    hists = reuse + hists
+    flavours = [2] * len(reuse) + flavours
+    n_sys += len(reuse)
     res = evaluate(binary, base, exe, hists, flavours)
 
     n_eval = n_cmp = n_fail_hist = dis = spec_fail = not_compiled = undefined = 0
@@ -1375,7 +1450,8 @@ def run(ctx):
                     rr = r
                 if not pre_fix:
                     # name the operation whose observation is the first to differ
-                    cls = "observation-differs:" + first_diff_op(rr)
+                    fd = first_diff_op(rr)
+                    cls = fd if fd == "map-replace-remove-returns-wrapped-optional" else "observation-differs:" + fd
                 reported += 1
                 spec_found = True
                 ctx.report(cls, "list/map history observed differently from the sequence / finite-map reading: %s; expected exit %s, got rc %d"
@@ -1436,11 +1512,19 @@ def first_diff_op(r):
     # map the line index back to the operation: count the lines every operation prints in the expected run
     PRINTS = {"remove", "iread", "indexof", "len", "eq", "print", "concat", "mget", "replace", "mremove", "haskey", "mlen"}
     line = 0
-    for op in r["hist"]:
+    probes = r.get("probes") or {}
+    for i, op in enumerate(o for o in r["hist"] if o[0] in OBSERVING):
         if op[0] in PRINTS:
-            if line >= n:
+            width = 1
+            if i in probes:
+                # the result of replace / map remove is used again (probe_src): 4 or 5 lines
+                width = 4 + (1 if probes[i][0] is not None else 0)
+                if line < n < line + width:
+                    # it PRINTS like the predicted value but does not behave like it
+                    return "map-replace-remove-returns-wrapped-optional"
+            if line + width > n:
                 return op[0]
-            line += 1
+            line += width
         elif op[0] in ("keys", "values", "pairs"):
             return op[0]
     return r["hist"][-1][0] if r["hist"] else "empty"
